@@ -9,7 +9,7 @@ From J5V.model Require Import J5sValidDecl J5sComments J5sEntity J5sRefSpec J5sA
 From J5V.gen Require ImportsGen.
 From J5V.model Require RulesDecl RulesWrite.
 From Coq Require Import ZArith.
-From J5V.proofs Require Import J5sProofs J5sContractProofs J5sLinkProofs J5sResolveProofs J5sResolveCompleteProofs J5sServiceProofs J5sTotalProofs J5sSymbolProofs J5sCompileProofs J5sSubPkgProofs J5sDepsProofs J5sNameProofs J5sTypeNameProofs J5sWitnessProofs J5sStrictProofs StrcaseProofs J5sStrcaseProofs J5sInfraProofs J5sRefSpecProofs J5sRulesCompose J5sEntityProofs J5sCommentsProofs J5sValidDeclProofs.
+From J5V.proofs Require Import J5sProofs J5sContractProofs J5sLinkProofs J5sResolveProofs J5sResolveCompleteProofs J5sServiceProofs J5sTotalProofs J5sSymbolProofs J5sCompileProofs J5sSubPkgProofs J5sDepsProofs J5sNameProofs J5sTypeNameProofs J5sWitnessProofs J5sStrictProofs StrcaseProofs J5sStrcaseProofs J5sInfraProofs J5sRefSpecProofs J5sRulesCompose J5sEntityProofs J5sCommentsProofs J5sValidDeclProofs J5sInfraDepsProofs.
 Import ListNotations.
 Local Open Scope N_scope.
 
@@ -452,6 +452,19 @@ Proof.
   split; [exact (topic_imports_from_go_table snake camel screaming)|exact (method_imports_from_go_table snake camel screaming)].
 Qed.
 Print Assumptions C02_construct_imports.
+
+(* ... at package level, for whatever compiles: the infrastructure files a declaration needs
+   (needs_*: read off the source with the per-type lists tied to the Go tables above - the
+   scalar's always-ensured files, annotation / validation imports of references and inline
+   types, the `required` block, arrays, message options, google.api.http and HttpBody of
+   methods, messaging annotations and Empty of topics) are the generated file the declaration
+   goes to (main / .service / .topic) or among its dependencies, after the link step - the
+   counterpart of C02_references_reach_dependencies for infrastructure files *)
+Theorem C02_infrastructure_reaches_dependencies : forall snake camel screaming bd pkg D,
+  compile_package snake camel screaming bd pkg = Ok D ->
+  forall f, In (BJ f) bd -> j5s_pkg f = pkg -> file_needs_ok f D.
+Proof. exact compile_needs_imported. Qed.
+Print Assumptions C02_infrastructure_reaches_dependencies.
 
 (* C02_full with the declarative hypothesis *)
 Theorem C02_full_declarative :
